@@ -1,0 +1,39 @@
+//! Verification hooks (only compiled with `--cfg gimli_verif`).
+//!
+//! Event counters and invariant checks that an external monitor reads; they do not
+//! change any behaviour of the library.
+use core::sync::atomic::{AtomicU64, Ordering};
+
+pub static SUBRANGE_OPS: AtomicU64 = AtomicU64::new(0);
+pub static ARRAYVEC_OPS: AtomicU64 = AtomicU64::new(0);
+pub static OP_PARSE_CALLS: AtomicU64 = AtomicU64::new(0);
+
+#[inline]
+pub fn bump(counter: &AtomicU64) {
+    counter.fetch_add(1, Ordering::Relaxed);
+}
+
+#[inline]
+pub fn get(counter: &AtomicU64) -> u64 {
+    counter.load(Ordering::Relaxed)
+}
+
+/// Check that the window `[ptr, ptr + len)` lies inside `[base, base + base_len)`.
+#[inline]
+pub fn check_window(base: *const u8, base_len: usize, ptr: *const u8, len: usize) {
+    bump(&SUBRANGE_OPS);
+    let b = base as usize;
+    let p = ptr as usize;
+    if !(p >= b && p - b <= base_len && len <= base_len - (p - b)) {
+        panic!("gimli_verif: SubRange window outside its buffer");
+    }
+}
+
+/// Check that an `ArrayVec` length does not exceed its storage.
+#[inline]
+pub fn check_arrayvec(len: usize, capacity: usize) {
+    bump(&ARRAYVEC_OPS);
+    if len > capacity {
+        panic!("gimli_verif: ArrayVec length exceeds capacity");
+    }
+}
